@@ -143,6 +143,8 @@ pub fn run(p: &[&str]) -> String {
         "cmp_canonical" => cmp_canonical(&p[1..]),
         "structures" => structures(&p[1..]),
         "api" => api(&p[1..]),
+        "encode_built" | "roundtrip_built" => built(p[0], &p[1..]),
+        "nested_sign1" => nested_sign1(&p[1..]),
         "cmp" => { let l = labels(p[1]); format!("{:?}", l[0].cmp(&l[1])) }
         "canonical_check" => canonical_check(&p[1..]),
         "free_structures" => free_structures(&p[1..]),
@@ -492,6 +494,7 @@ fn api(p: &[&str]) -> String {
     match p[0] {
         "Label" => api_plain::<Label>(&data),
         "Header" => api_plain::<Header>(&data),
+        "ProtectedHeader" => api_plain::<ProtectedHeader>(&data),
         "CoseSignature" => api_plain::<CoseSignature>(&data),
         "CoseSign" => api_plain::<CoseSign>(&data),
         "CoseSign1" => api_plain::<CoseSign1>(&data),
@@ -526,4 +529,129 @@ fn canonical_check(p: &[&str]) -> String {
         }
     }
     format!("SORTED {}", hexs)
+}
+
+/// nested_sign1 <levels>: COSE_Sign1 whose protected header nests counter-signature -> protected
+/// header `levels` deep, decoded in a CHILD PROCESS on a 2 MiB thread (the result line reports how
+/// the child ended).  `nested_child <levels>` is the child side.
+fn nested_bytes(levels: usize) -> Vec<u8> {
+    fn bstr(b: &[u8]) -> Vec<u8> {
+        let mut v = Vec::new();
+        coset::cbor::ser::into_writer(&Value::Bytes(b.to_vec()), &mut v).unwrap();
+        v
+    }
+    let mut prot: Vec<u8> = vec![0xa0];
+    for _ in 0..levels {
+        // {7: [bstr(prot), {}, h'']}
+        let mut m = vec![0xa1, 0x07, 0x83];
+        m.extend(bstr(&prot));
+        m.extend([0xa0, 0x40]);
+        prot = m;
+    }
+    let mut out = vec![0x84];
+    out.extend(bstr(&prot));
+    out.extend([0xa0, 0xf6, 0x40]);
+    out
+}
+
+fn nested_sign1(p: &[&str]) -> String {
+    let exe = std::env::current_exe().unwrap();
+    let out = std::process::Command::new(exe).arg("--nested-child").arg(p[0]).output();
+    match out {
+        Ok(o) => {
+            let s = String::from_utf8_lossy(&o.stdout).trim().to_string();
+            if o.status.success() {
+                format!("SURVIVED {}", s)
+            } else {
+                use std::os::unix::process::ExitStatusExt;
+                format!("CRASH signal={:?} code={:?} input_bytes={}", o.status.signal(), o.status.code(), nested_bytes(p[0].parse().unwrap()).len())
+            }
+        }
+        Err(e) => format!("SPAWNERR {}", e),
+    }
+}
+
+pub fn nested_child(levels: usize) {
+    let data = nested_bytes(levels);
+    let h = std::thread::Builder::new().stack_size(2 * 1024 * 1024).spawn(move || {
+        let r = CoseSign1::from_slice(&data);
+        match r { Ok(_) => "Ok", Err(_) => "Err" }
+    }).unwrap();
+    println!("{}", h.join().unwrap());
+}
+
+// ------------------------------------------------------------------------------------------
+// Builder-made twins: the decoded value with every retained protected byte string dropped
+// (what `builder.protected(h)` produces).
+
+trait Strip {
+    fn strip(&mut self);
+}
+impl Strip for Header {
+    fn strip(&mut self) { strip_header(self) }
+}
+impl Strip for CoseSignature {
+    fn strip(&mut self) { strip_sig(self) }
+}
+impl Strip for CoseRecipient {
+    fn strip(&mut self) { strip_rcpt(self) }
+}
+impl Strip for CoseSign1 {
+    fn strip(&mut self) { strip_prot(&mut self.protected); strip_header(&mut self.unprotected); }
+}
+impl Strip for CoseSign {
+    fn strip(&mut self) { strip_prot(&mut self.protected); strip_header(&mut self.unprotected); for s in self.signatures.iter_mut() { strip_sig(s); } }
+}
+impl Strip for CoseMac0 {
+    fn strip(&mut self) { strip_prot(&mut self.protected); strip_header(&mut self.unprotected); }
+}
+impl Strip for CoseMac {
+    fn strip(&mut self) { strip_prot(&mut self.protected); strip_header(&mut self.unprotected); for r in self.recipients.iter_mut() { strip_rcpt(r); } }
+}
+impl Strip for CoseEncrypt0 {
+    fn strip(&mut self) { strip_prot(&mut self.protected); strip_header(&mut self.unprotected); }
+}
+impl Strip for CoseEncrypt {
+    fn strip(&mut self) { strip_prot(&mut self.protected); strip_header(&mut self.unprotected); for r in self.recipients.iter_mut() { strip_rcpt(r); } }
+}
+impl Strip for SuppPubInfo {
+    fn strip(&mut self) { strip_prot(&mut self.protected); }
+}
+impl Strip for CoseKey { fn strip(&mut self) {} }
+impl Strip for CoseKeySet { fn strip(&mut self) {} }
+impl Strip for cwt::ClaimsSet { fn strip(&mut self) {} }
+impl Strip for PartyInfo { fn strip(&mut self) {} }
+
+fn built_ops<T: Strip + CborSerializable + Clone + PartialEq + core::fmt::Debug>(what: &str, data: &[u8]) -> String {
+    let mut v = match T::from_slice(data) { Ok(v) => v, Err(e) => return format!("ERR {}", err_name(&e)) };
+    v.strip();
+    let b1 = match v.clone().to_vec() { Ok(b) => b, Err(e) => return format!("ENCERR {}", err_name(&e)) };
+    if what == "encode_built" {
+        return format!("OK {}", hex::encode(b1));
+    }
+    let mut v2 = match T::from_slice(&b1) { Ok(v) => v, Err(e) => return format!("REDECERR {} {}", err_name(&e), hex::encode(&b1)) };
+    let b2 = match v2.clone().to_vec() { Ok(b) => b, Err(e) => return format!("REENCERR {}", err_name(&e)) };
+    v2.strip();
+    format!("OK eq={} fixed={} b1={}", v == v2, b1 == b2, hex::encode(&b1))
+}
+
+fn built(what: &str, p: &[&str]) -> String {
+    let data = unhex(p[1]);
+    match p[0] {
+        "Header" => built_ops::<Header>(what, &data),
+        "CoseSignature" => built_ops::<CoseSignature>(what, &data),
+        "CoseSign" => built_ops::<CoseSign>(what, &data),
+        "CoseSign1" => built_ops::<CoseSign1>(what, &data),
+        "CoseMac" => built_ops::<CoseMac>(what, &data),
+        "CoseMac0" => built_ops::<CoseMac0>(what, &data),
+        "CoseEncrypt" => built_ops::<CoseEncrypt>(what, &data),
+        "CoseEncrypt0" => built_ops::<CoseEncrypt0>(what, &data),
+        "CoseRecipient" => built_ops::<CoseRecipient>(what, &data),
+        "CoseKey" => built_ops::<CoseKey>(what, &data),
+        "CoseKeySet" => built_ops::<CoseKeySet>(what, &data),
+        "ClaimsSet" => built_ops::<cwt::ClaimsSet>(what, &data),
+        "PartyInfo" => built_ops::<PartyInfo>(what, &data),
+        "SuppPubInfo" => built_ops::<SuppPubInfo>(what, &data),
+        other => format!("BADTYPE {}", other),
+    }
 }
